@@ -14,3 +14,9 @@ Proof. reflexivity. Qed.
 
 Lemma parser_until_agrees p f u : parser_getAnchorUntil p f u = anchor_until_p p f u.
 Proof. reflexivity. Qed.
+
+(* metadata.sortOperations: the comparator regenerated from the source is the lexicographic
+   (transaction time, transaction number) order of the model *)
+From Sidetree Require Import Sidetree.Transformer.
+Lemma metadata_less_agrees a b : metadata_less a b = op_less a b.
+Proof. reflexivity. Qed.
